@@ -278,3 +278,64 @@ pub fn uni_opt_real<const H: usize, const N: usize, const START: usize>() {
     kani::cover!(r.is_some());
     std::mem::forget(m);
 }
+
+// ---------------------------------------------------------------------------------------------
+// prefilter_non_ascii, direct contract (call-site precondition: 1 <= N < H)
+// ---------------------------------------------------------------------------------------------
+pub fn uni_prefilter<const REP: u8, const H: usize, const N: usize>() {
+    let i = inputs::<REP, H, N, 0>();
+    let only_greedy: bool = kani::any();
+    let m = small_matcher(i.cfg.clone(), 8);
+    let needle = if REP == 2 { Utf32Str::Unicode(&i.needle) } else { Utf32Str::Ascii(&i.needle_b) };
+    let r = m.prefilter_non_ascii(&i.hay, needle, only_greedy);
+    let h: &[char] = &i.hay;
+    let n: &[char] = &i.needle;
+    // sound rejection: None only if the needle is not a normalised subsequence
+    if r.is_none() {
+        assert!(!spec_subseq(h, n, &i.cfg), "the prefilter never rejects a haystack that contains the needle as a normalised subsequence");
+    }
+    if let Some((s, e)) = r {
+        assert!(s < e && e <= H && e - s >= if only_greedy { 1 } else { N });
+        assert!(first_match(h, n[0], 0, &i.cfg) == Some(s) || first_match(&h[..H - N + 1], n[0], 0, &i.cfg) == Some(s), "start is the first occurrence of the first needle character");
+        assert!(matches(h[s], n[0], &i.cfg));
+        if only_greedy {
+            assert!(e == s + 1);
+        } else {
+            assert!(matches(h[e - 1], n[N - 1], &i.cfg), "end-1 is an occurrence of the last needle character");
+            assert!(last_match(h, n[N - 1], s + 1, &i.cfg) == Some(e - 1), "... the last one after start");
+        }
+    }
+    kani::cover!(r.is_some());
+    std::mem::forget(m);
+}
+
+// ---------------------------------------------------------------------------------------------
+// Utf32Str::leading_white_space / trailing_white_space (used by prefix/postfix/exact)
+// ---------------------------------------------------------------------------------------------
+pub fn white_space_counts<const UNI: bool, const L: usize>() {
+    let mut cs = ['a'; L];
+    let mut bs = [0u8; L];
+    let mut k = 0;
+    while k < L {
+        cs[k] = any_char();
+        if !UNI {
+            kani::assume((cs[k] as u32) < 128);
+        }
+        kani::assume(cs[k] != '\u{0B}');
+        bs[k] = cs[k] as u32 as u8;
+        k += 1;
+    }
+    let s = if UNI { Utf32Str::Unicode(&cs) } else { Utf32Str::Ascii(&bs) };
+    let lead = s.leading_white_space();
+    let trail = s.trailing_white_space();
+    let all_ws = leading_ws(&cs) == L;
+    if all_ws {
+        // nothing to skip to: the callers then compare at position 0 and fail on the first character
+        assert!(lead == 0 && trail == 0);
+    } else {
+        assert!(lead == leading_ws(&cs), "number of leading whitespace characters");
+        assert!(trail == trailing_ws(&cs), "number of trailing whitespace characters");
+        assert!(lead + trail < L);
+    }
+    kani::cover!(lead > 0 && trail > 0);
+}
